@@ -14,7 +14,7 @@ from .. import common
 from ..decoders import iden3, zkif
 from . import c11, c12
 
-MODES = ["fall", "exit()", "exit(None)", "exit(0)", "exit(False)", "exit(1)", "exit(str)", "ValueError", "KeyboardInterrupt",
+MODES = ["fall", "exit()", "exit(None)", "exit(0)", "exit(False)", "exit(1)", "exit(2)", "exit(str)", "exit('')", "exit([])", "ValueError", "KeyboardInterrupt",
          "raise SystemExit(0)", "raise SystemExit(1)", "builtin exit(0)", "builtin exit(1)"]
 CAUGHT = ["none", "sysexit1", "exception"]
 BACKENDS = ["snarkjs", "zkinterface", "zkifbellman", "qaptools", "nobackend"]
@@ -25,7 +25,7 @@ SCRIPT = os.path.join(common.VERIF, "pv", "children", "exit_script.py")
 
 
 def expected_status(mode):
-    return {"fall": 0, "exit()": 0, "exit(None)": 0, "exit(0)": 0, "exit(False)": 0, "exit(1)": 1, "exit(str)": 1,
+    return {"fall": 0, "exit()": 0, "exit(None)": 0, "exit(0)": 0, "exit(False)": 0, "exit(1)": 1, "exit(2)": 2, "exit(str)": 1, "exit('')": 1, "exit([])": 1,
             "ValueError": 1, "KeyboardInterrupt": "sigint", "raise SystemExit(0)": 0, "raise SystemExit(1)": 1,
             "builtin exit(0)": 0, "builtin exit(1)": 1}[mode]
 
@@ -165,7 +165,7 @@ def run(ctx):
     ctx.cov["prove_calls_observed"] = nprove
     ctx.cov["traces_validated_against_impl"] = len(results)
     ctx.cov["exhaustive"] = True
-    ctx.cov["rule"] = ("fresh interpreter per point: 4 statement positions x 13 ways of terminating x 3 earlier caught events x "
+    ctx.cov["rule"] = ("fresh interpreter per point: 4 statement positions x 16 ways of terminating x 3 earlier caught events x "
                        "autoprove on/off x backends snarkjs, zkinterface, zkifbellman, qaptools (failing tool stubs), nobackend "
                        "(quick: full product for snarkjs, all termination modes at one position for the others); states = "
                        "distinct (backend, exit status, prove calls, artefacts present)")
